@@ -350,6 +350,12 @@ func checkC14(w *World, r *Report) {
 	r.Rule("R14.7", "no stale inherited status: where a function overrides its inherited-status parameter with the node's own status statement, the bare parameter has no later use — everything beneath sees the derived status", 1)
 	r.guard("R14.7", func() { c14StaleStatus(w, r) })
 
+	r.Rule("R14.8", "if-feature and status written on a uses or augment reach every node it introduces, whatever the node carries itself: inheritCommonProperties adds them unconditionally (a node is present iff ALL its if-features are enabled)", 3)
+	r.guard("R14.8", func() { c12InheritUnconditional(w, r, "R14.8") })
+
+	r.Rule("R14.9", "deviate not-supported is exclusive wherever it stands among the deviate statements: its application is dominated by the unconditional test `more than one deviate ⇒ error`", 1)
+	r.guard("R14.9", func() { c14NotSupportedExclusive(w, r) })
+
 	r.Rule("R14.6", "deviate edits hit the statement they name: delete removes the child found by type and argument, replace substitutes by type after checking existence, add appends", 3)
 	r.guard("R14.6", func() {
 		dd := w.Method("compile", "deviateDelete", "propertyAction")
@@ -537,6 +543,49 @@ func checkC20(w *World, r *Report) {
 				return true
 			})
 			r.Check(ok, "R20.1", fn+" filters before attaching", fd.Pos(), "if c.filter != nil && !c.filter(sn) { continue }; append", why+": some nodes (e.g. list keys) would bypass the filter, so the filtered schema is not the pruned unfiltered one")
+		}
+	})
+
+	r.Rule("R20.6", "nothing BuildNode returns is attached wholesale: in buildChildren and buildListChildren the slice BuildNode returns is never itself appended (spread) to the children — nodes reach the result only one by one through the filter test of R20.1 (a choice is filtered like any other node)", 2)
+	r.guard("R20.6", func() {
+		for _, fn := range []string{"buildChildren", "buildListChildren"} {
+			f := w.SSAFunc(w.Method("compile", "Compiler", fn))
+			if f == nil {
+				panic(undecided{"Compiler." + fn})
+			}
+			var built []ssa.Value
+			for _, b := range f.Blocks {
+				for _, in := range b.Instrs {
+					if c, ok := in.(*ssa.Call); ok && c.Call.StaticCallee() != nil && c.Call.StaticCallee().Name() == "BuildNode" {
+						built = append(built, c)
+					}
+				}
+			}
+			if len(built) == 0 {
+				panic(undecided{fn + ": BuildNode call not found"})
+			}
+			bad := token.NoPos
+			for _, b := range f.Blocks {
+				for _, in := range b.Instrs {
+					c, ok := in.(*ssa.Call)
+					if !ok {
+						continue
+					}
+					if bi, ok := c.Call.Value.(*ssa.Builtin); !ok || bi.Name() != "append" || len(c.Call.Args) != 2 {
+						continue
+					}
+					for _, bv := range built {
+						v := c.Call.Args[1]
+						if sl, ok := v.(*ssa.Slice); ok {
+							v = sl.X
+						}
+						if v == bv {
+							bad = c.Pos()
+						}
+					}
+				}
+			}
+			r.Check(!bad.IsValid(), "R20.6", fn+": BuildNode's result is not appended as a whole", f.Pos(), "nodes are attached one by one, through the filter", "the nodes BuildNode returned are appended to the children without the filter test ("+w.PosStr(bad)+"): a node that fails the filter (e.g. a choice whose config class differs from its parent's) survives in the filtered schema")
 		}
 	})
 
